@@ -295,7 +295,7 @@ class Ctx:
     def random(self, name: str, modname: str, strat_name: str, check_name: str, examples: int, shards: int | None = None, shrink: bool = True) -> Stats:
         """Run a Hypothesis search split over processes; every shard has its own derived seed."""
         t0 = time.time()
-        shards = shards or CORES
+        shards = shards or 16  # fixed, so that the sample does not depend on how many cores happen to be available
         per = max(1, examples // shards)
         jobs = [
             (modname, strat_name, check_name, per, derive_seed(self.seed, self.prop, name, i), self.tier, self.deadline, shrink)
